@@ -86,12 +86,15 @@ def run(ctx):
                            [keep, keep, keep], tspec(pty, f), pty.bits, max_product=20000)
             tot += decided(st)
             import probes
-            pv = [v for v in probes.small_posit_probes(pty) if v not in (0, pty.nar)][:: (1 if ctx.tier == 'thorough' else 2)]
-            pc = probes.singles(pv)
-            st = run_cells(ctx, prog, 'GCR', '%s::%s' % (pty.name, name), path,
-                           lambda cell, pty=pty: [posit_arg(pty, c[0], c[1], i) for i, c in enumerate(cell)],
-                           [pc, pc, pc], tspec(pty, f), pty.bits, max_product=20000)
-            ctx.count('probe_cells', st['cells'])
+            n0 = len(ctx.findings)
+            for (a, b, c) in probes.ternary_probes(pty, 2 if ctx.tier == 'thorough' else 1):
+                cellsets = [[(a, a)], [(b, b)], [(c, c)]]
+                st = run_cells(ctx, prog, 'GCR', '%s::%s' % (pty.name, name), path,
+                               lambda cell, pty=pty: [posit_arg(pty, c_[0], c_[1], i) for i, c_ in enumerate(cell)],
+                               cellsets, tspec(pty, f), pty.bits)
+                ctx.count('probe_cells', 1)
+                if len(ctx.findings) - n0 > 40:
+                    break
             k = find_kernel(prog, path)
             if k is None:
                 ctx.finding('ANCHOR', '%s::%s' % (pty.name, name), 'kernel', 'no callee with a MulAddType selector found')
